@@ -19,7 +19,7 @@ var guardMap = map[string]map[string]string{
 		"localAuthData":      stateMutex,
 		"vipPushCookie":      stateMutex,
 		"pendingOauth2":      stateMutex,
-		"totpLocalRateLimit": totpMutex,
+		"totpLocalRateLimit": totpMutexDeclared,
 	},
 	km.ModPath + "/keymasterd/eventnotifier.EventNotifier": {
 		"transmitChannels": km.ModPath + "/keymasterd/eventnotifier.EventNotifier.mutex",
@@ -140,6 +140,41 @@ func checkC16(c *km.Ctx) {
 			fns = append(fns, fn)
 		}
 	}
+	// The mutex that guards a field is the one most accesses hold (the table's entry is the tie-break and the
+	// fallback): a renamed mutex field keeps the rule, an access under a different lock or none does not pass.
+	votes := map[string]map[string]int{}
+	for _, fn := range fns {
+		name := fn.Name()
+		if fn.Parent() != nil {
+			name = fn.Parent().Name()
+		}
+		if _, exempt := initExempt[name]; exempt {
+			continue
+		}
+		for _, a := range guardedAccesses(fn) {
+			key := a.typ + "." + a.field
+			if votes[key] == nil {
+				votes[key] = map[string]int{}
+			}
+			for _, m := range ls.HeldAt(a.in) {
+				votes[key][m]++
+			}
+		}
+	}
+	guardOf := func(a access) string {
+		best, bestN := a.mu, votes[a.typ+"."+a.field][a.mu]
+		var names []string
+		for m := range votes[a.typ+"."+a.field] {
+			names = append(names, m)
+		}
+		sort.Strings(names)
+		for _, m := range names {
+			if n := votes[a.typ+"."+a.field][m]; n > bestN {
+				best, bestN = m, n
+			}
+		}
+		return best
+	}
 	for _, fn := range fns {
 		acc := guardedAccesses(fn)
 		if len(acc) == 0 {
@@ -151,6 +186,7 @@ func checkC16(c *km.Ctx) {
 		}
 		held := ls.Held(fn)
 		for _, a := range acc {
+			a.mu = guardOf(a)
 			h, reachable := held[a.in]
 			if !reachable {
 				continue
@@ -510,21 +546,14 @@ func checkTotpGateAtomic(c *km.Ctx, ls *km.LockSets, rule string) {
 	if vt == nil {
 		return
 	}
-	held := ls.Held(vt)
-	var lookup *ssa.Lookup
-	var firstUpdate *ssa.MapUpdate
-	km.Instrs(vt, func(in ssa.Instruction) {
-		if lk, ok := in.(*ssa.Lookup); ok && mentionsField(lk.X, "totpLocalRateLimit") && lookup == nil {
-			lookup = lk
-		}
-		if mu, ok := in.(*ssa.MapUpdate); ok && mentionsField(mu.Map, "totpLocalRateLimit") && firstUpdate == nil {
-			firstUpdate = mu
-		}
-	})
-	if lookup == nil || firstUpdate == nil {
-		c.R.AnchorLost(rule, "lookup / update of totpLocalRateLimit in validateUserTOTP")
+	gate := findTotpGate(c, vt)
+	if gate == nil {
+		c.R.AnchorLost(rule, "lookup / update of totpLocalRateLimit in validateUserTOTP or a helper it calls")
 		return
 	}
+	held := ls.Held(gate.fn)
+	lookup, firstUpdate := gate.lookup, gate.firstUpdate
+	totpMutex := gateMutex(ls, gate)
 	allHeld := held[lookup][totpMutex] && held[firstUpdate][totpMutex] && lookup.Block().Dominates(firstUpdate.Block())
 	for b := range blocksBetween(lookup.Block(), firstUpdate.Block()) {
 		for _, in := range b.Instrs {
@@ -536,5 +565,5 @@ func checkTotpGateAtomic(c *km.Ctx, ls *km.LockSets, rule string) {
 			}
 		}
 	}
-	c.R.Add(rule, km.FuncName(vt), "TOTP gate: read-test-update is one critical section", posOf(c, lookup), "totpLocalTateLimitMutex held continuously from the lookup of the per-user record to the update of lastCheckTime", sprintf("%v", allHeld), allHeld)
+	c.R.Add(rule, km.FuncName(gate.fn), "TOTP gate: read-test-update is one critical section", posOf(c, lookup), "totpLocalTateLimitMutex held continuously from the lookup of the per-user record to the update of lastCheckTime", sprintf("%v", allHeld), allHeld)
 }
